@@ -12,6 +12,7 @@ import Frugal.Bitset
 import Frugal.DescMap
 import Frugal.Norm
 import Frugal.BuildCache
+import Frugal.Reference
 import Frugal.Proofs.NormFacts
 open Frugal Frugal.Proto
 
@@ -77,20 +78,35 @@ def reachFrom (S : Schema) : Nat → List Nat → List Nat → List Nat
     if seen.contains sid then reachFrom S fuel todo seen
     else reachFrom S fuel ((S.get sid).fields.flatMap (·.ty.structRefs) ++ todo) (sid :: seen)
 
+def reachOf (S : Schema) (sid : Nat) : List Nat :=
+  reachFrom S (S.length * S.length + S.length + 1) [sid] []
+
 /-- the schema restricted to the types a value of struct `sid` can contain -/
-def subSchema (S : Schema) (sid : Nat) : Schema :=
-  let r := reachFrom S (S.length * S.length + S.length + 1) [sid] []
+def subSchema (S : Schema) (r : List Nat) : Schema :=
   (List.range S.length).map fun j => if r.contains j then S.get j else { fields := [] }
+
+/-- `S'.ok && S'.rtSideB` for `S' = subSchema S r`, evaluated on the reachable structs only (the
+    other descriptors of `S'` are empty and satisfy every condition trivially) -/
+def sideOn (S' : Schema) (r : List Nat) : Option String :=
+  if !(r.all fun j => (S'.get j).ok) then some "schema-not-ok"
+  else if !(r.all fun j => (S'.get j).fields.all fun f => !f.nocopy) then some "nocopy-field"
+  else if !(r.all fun j =>
+      distinctIdsB (S'.get j).fields &&
+      ((S'.get j).fields.all fun f => !f.assigned || match f.dflt with
+        | some d => hasTy S' f.ty d
+        | none => true) &&
+      hasTy S' (.strct j) (zeroVal S' S'.length (.strct j))) then some "schema-side-condition"
+  else none
 
 /-- C01 (`Frugal.C01.roundtrip`): the first of its hypotheses this (schema, value, destination)
     does not meet, if any -/
-def rtWhy (S : Schema) (i : Nat) (vv dv : Val) : Option String :=
+def rtWhy (S : Schema) (r : List Nat) (i : Nat) (vv dv : Val) : Option String :=
   match vv with
   | .st xs h =>
-    if !S.ok then some "schema-not-ok"
-    else if !(S.all fun sd => sd.fields.all fun f => !f.nocopy) then some "nocopy-field"
-    else if !S.rtSideB then some "schema-side-condition"
-    else if !hasTy S (.strct i) vv then some "value-not-typed"
+    match sideOn S r with
+    | some w => some w
+    | none =>
+    if !hasTy S (.strct i) vv then some "value-not-typed"
     else if !hasTy S (.strct i) dv then some "dest-not-typed"
     else if !(h.isEmpty && noHolderList xs) then some "holder-bytes"
     else if !sizesFitList xs then some "size"
@@ -149,8 +165,9 @@ def handle (ctx : Ctx) (ln : String) : Option String :=
       match parseValStr v, parseValStr dest with
       | some vv, some dv =>
         let i := sid.toNat!
-        let S' := subSchema ctx.S i
-        match rtWhy S' i vv dv with
+        let r := reachOf ctx.S i
+        let S' := subSchema ctx.S r
+        match rtWhy S' r i vv dv with
         | some why => some ("SKIP rt:" ++ why)
         | none =>
           let exp := "ok " ++ toString (appendM ctx.P S' i vv).length ++ " " ++ showVal (normTop S' i vv dv)
@@ -231,17 +248,22 @@ partial def loop (ctx : Ctx) (h : IO.FS.Stream) (lineNo diffs : Nat) (skips : Li
       IO.println s!"{msg} @line={lineNo + 1}"
       loop ctx h (lineNo + 1) (diffs + 1) skips cache
 
+def run (ufile : String) (P : Params) (label : String) : IO UInt32 := do
+  let lines ← IO.FS.lines ufile
+  let U := parseUniverse lines
+  let ctx : Ctx := { U := U, R := resolveAll U, S := schemaOf U, P := P }
+  let stdin ← IO.getStdin
+  let (n, d, sk) ← loop ctx stdin 0 0 [] {}
+  let sks := " ".intercalate (sk.map fun (k, c) => s!"[{k}]={c}")
+  IO.println s!"SUMMARY lines={n} diffs={d} structs={U.length} params={label} outside_theorem_hypotheses: {sks}"
+  return (if d == 0 then 0 else 1)
+
 def main (args : List String) : IO UInt32 := do
   match args with
-  | [ufile] =>
-    let lines ← IO.FS.lines ufile
-    let U := parseUniverse lines
-    let ctx : Ctx := { U := U, R := resolveAll U, S := schemaOf U, P := Frugal.Generated.params }
-    let stdin ← IO.getStdin
-    let (n, d, sk) ← loop ctx stdin 0 0 [] {}
-    let sks := " ".intercalate (sk.map fun (k, c) => s!"[{k}]={c}")
-    IO.println s!"SUMMARY lines={n} diffs={d} structs={U.length} outside_theorem_hypotheses: {sks}"
-    return (if d == 0 then 0 else 1)
+  | [ufile] => run ufile Frugal.Generated.params "regenerated"
+  -- search mode: the implementation against the model under the committed tables of the unchanged
+  -- tree (used when a regenerated table has stopped satisfying `Params.valid`)
+  | ["--ref", ufile] => run ufile Frugal.Reference.params "reference"
   | _ =>
-    IO.eprintln "usage: driver <universe.txt> < transcript"
+    IO.eprintln "usage: driver [--ref] <universe.txt> < transcript"
     return 2
